@@ -153,9 +153,9 @@ theorem field_line (ts : Bytes → Bool) (b : Builder) (u : Bytes) (pre : List (
     simp +decide [builderAbs, Spec.songOf, lastOf_snoc, durText_snoc, tagsOf_snoc_attr, seconds_eq, rangeAbs, *]
   by_cases h6 : k = str "Prio"
   · subst h6
-    have hv : ∃ n, Spec.decimal v = some n ∧ n ≤ 255 := by
-      have : (Spec.decimal v).any (· ≤ 255) = true := by simpa +decide using hval
-      cases hd : Spec.decimal v with
+    have hv : ∃ n, Spec.decimalL v = some n ∧ n ≤ 255 := by
+      have : (Spec.decimalL v).any (· ≤ 255) = true := by simpa +decide using hval
+      cases hd : Spec.decimalL v with
       | none => simp [hd] at this
       | some n => exact ⟨n, rfl, by simpa [hd] using this⟩
     obtain ⟨n, hn, hle⟩ := hv
@@ -164,9 +164,9 @@ theorem field_line (ts : Bytes → Bool) (b : Builder) (u : Bytes) (pre : List (
     simp +decide [builderAbs, Spec.songOf, lastOf_snoc, durText_snoc, tagsOf_snoc_attr, seconds_eq, rangeAbs, hn, *]
   by_cases h7 : k = str "Pos"
   · subst h7
-    have hv : ∃ n, Spec.decimal v = some n ∧ n ≤ U64MAX := by
-      have : (Spec.decimal v).any (· ≤ U64MAX) = true := by simpa +decide using hval
-      cases hd : Spec.decimal v with
+    have hv : ∃ n, Spec.decimalL v = some n ∧ n ≤ U64MAX := by
+      have : (Spec.decimalL v).any (· ≤ U64MAX) = true := by simpa +decide using hval
+      cases hd : Spec.decimalL v with
       | none => simp [hd] at this
       | some n => exact ⟨n, rfl, by simpa [hd] using this⟩
     obtain ⟨n, hn, hle⟩ := hv
@@ -175,9 +175,9 @@ theorem field_line (ts : Bytes → Bool) (b : Builder) (u : Bytes) (pre : List (
     simp +decide [builderAbs, Spec.songOf, lastOf_snoc, durText_snoc, tagsOf_snoc_attr, seconds_eq, rangeAbs, hn, *]
   by_cases h8 : k = str "Id"
   · subst h8
-    have hv : ∃ n, Spec.decimal v = some n ∧ n ≤ U64MAX := by
-      have : (Spec.decimal v).any (· ≤ U64MAX) = true := by simpa +decide using hval
-      cases hd : Spec.decimal v with
+    have hv : ∃ n, Spec.decimalL v = some n ∧ n ≤ U64MAX := by
+      have : (Spec.decimalL v).any (· ≤ U64MAX) = true := by simpa +decide using hval
+      cases hd : Spec.decimalL v with
       | none => simp [hd] at this
       | some n => exact ⟨n, rfl, by simpa [hd] using this⟩
     obtain ⟨n, hn, hle⟩ := hv
